@@ -75,11 +75,15 @@ def script_for(execs):
         lines.append("note exec%d" % xi)
         srcs, imports = sg.sources(x["rules"], x.get("extra_imports", ()))
         x["imports"] = imports
+        for o in x.get("pre_opts", ()):
+            lines.append(o)
         lines.append("compiler 0")
         for ns, txt in srcs:
             lines.append("add 0 %s %s" % (ns, yv.hx(txt.encode())))
         lines.append("getrules 0 0")
         lines.append("cdestroy 0")
+        if x.get("via_save"):
+            lines += ["save 0 %s" % x["via_save"], "rdestroy 0", "load 0 %s" % x["via_save"]]
         lines.append("rinfo 0")
         if x.get("api") != "rules":
             lines.append("scanner 0 0")
